@@ -9,7 +9,7 @@ CLAIMED = {
         text="Coq theorems over R about the calcMetric/geometry2/calcBeta formulas REGENERATED from mesh.py on every run "
              "(matrix inverse 9+9 entries, J=hy/Bp, J^2 det=1, sign J, Jcheck=J, closed forms, y-z coupling, displacement "
              "scalar products); translation validated against the real calcMetric on binary64; the same relations evaluated "
-             "on the implementation's outputs and on real grid files as the failing-input search.",
+             "on the implementation's outputs and on real grid files as the failing-input search. The closed forms (g11, g22, g33, g_22, |g23|, |g_23|, g_11, g_33 in the R, Bp, Bt, hy of the same grid) are evaluated on every orthogonal corpus grid and on a member with cap_Bp_ylow_xpoint.",
         note="Trusted: Coq kernel; Reals axioms + classic + funext (Print Assumptions); the ast translator (validated each run); "
              "hy, beta, zShift values are free variables here (C05/C06); linearised cell in the displacement statements; "
              "binary64 rounding not modelled.",
@@ -33,7 +33,7 @@ CLAIMED = {
              "reversed edges give the same hits and misses; a crossing through a shared vertex is reported by both edges and merged into one point by "
              "wallIntersection for any positive tolerance; the tolerance only widens acceptance; closest_approach returns the minimum of the distance "
              "over the whole segment and attains it. The model is evaluated by vm_compute against the float implementation (find_intersections, "
-             "wallIntersection, polygons.area/clockwise/intersect, closest_approach) on lattice and random dyadic cases each run.",
+             "wallIntersection, polygons.area/clockwise/intersect, closest_approach) on lattice and random dyadic cases each run. wallIntersection is exercised through a real minimal Equilibrium whose constructor closes the wall; polygons.intersect is compared for all four combinations of closed flags (finding F26, fixed).",
         note="Trusted: Coq kernel; the correspondence harness (hand model, not translated); polygons.intersect / area have no spec theorem beyond the exact "
              "model they are compared with; cases whose exact outcome depends on the tolerance are counted as degenerate and not compared.",
         technique="Coq proof (field/lra over Q) on a hand model + differential correspondence",
@@ -43,7 +43,7 @@ CLAIMED = {
              "number of tasks and EVERY schedule, results are never stored in a wrong position, a finished call returns the serial list or raises "
              "the serial exception (lowest failing index), a step is always enabled while the caller waits and every step decreases a measure "
              "(no blocking). Completion orders and failing positions are enumerated on the real ParallelMap with gate files; a grid built with "
-             "number_of_processors=2 is compared bit for bit with the serial grid. The structural facts the model rests on (worker catches and always puts one result per task, tasks enqueued with their index, n results taken and stored by index in a pre-allocated list, first error in index order re-raised afterwards, the exception wrapper tests with the queue's own serializer) are REGENERATED from parallel_map.py and are premises proved by reflexivity; a transport model shows that every exception report is then delivered (and which are lost by a laxer test). Scenarios include exceptions the standard pickle cannot carry (local class, unpicklable attribute, two-argument constructor) and the re-used object; a non-orthogonal double null without guard cells (contours extended inside the workers) is compared for np=1/2.",
+             "number_of_processors=2 is compared bit for bit with the serial grid. The structural facts the model rests on (worker catches and always puts one result per task, tasks enqueued with their index, n results taken and stored by index in a pre-allocated list, first error in index order re-raised afterwards, the exception wrapper tests with the queue's own serializer) are REGENERATED from parallel_map.py and are premises proved by reflexivity; a transport model shows that every exception report is then delivered (and which are lost by a laxer test). Scenarios include exceptions the standard pickle cannot carry (local class, unpicklable attribute, two-argument constructor) and the re-used object; a non-orthogonal double null without guard cells (contours extended inside the workers) is compared for np=1/2. A task raising func_timeout.FunctionTimedOut (refine timeout; not an Exception subclass) blocked the caller forever: finding F28, fixed; several ParallelMap objects for successive equilibria (address re-use, in-place change) must each see their own equilibrium.",
         note="Trusted: Coq kernel; the LTS abstraction (atomic steps, anonymous workers, FIFO lossless queues, faithful pickling); OS scheduling "
              "outside the model; the scenario driver.",
         technique="Coq proof (inductive invariant over all schedules) on a hand LTS model + schedule enumeration on the implementation",
@@ -54,7 +54,7 @@ CLAIMED = {
              "index ordering for double nulls; tiling (every index in exactly one block, any sizes); symmetric injective tables. The ladder and the tables are "
              "REGENERATED from mesh.py/tokamak.py each run and validated against the executed source; real equilibria + BoutMesh index code (makeRegions stubbed) "
              "and corpus grid files (corner coordinates, theta, chi, y-coord) are checked with the same oracle. Known findings: single-null index ordering (F3), "
-             "start_at_upper_outer with disconnected double null (F14). The isolated X-point topology (TORPEX, four legs on the wall; table REGENERATED from torpex.py) has its own theorem: adjacency = BOUT++'s reading and ordered integers for every vector of leg sizes, and the executed ladder is run on random 4-leg size vectors against the extracted table. The oracle on real equilibria no longer depends on the table translation succeeding.",
+             "start_at_upper_outer with disconnected double null (F14). The isolated X-point topology (TORPEX, four legs on the wall; table REGENERATED from torpex.py) has its own theorem: adjacency = BOUT++'s reading and ordered integers for every vector of leg sizes, and the executed ladder is run on random 4-leg size vectors against the extracted table. The oracle on real equilibria no longer depends on the table translation succeeding. A grid regridded by redistributePoints and written without an explicit calculateRZ is part of the file oracle; the X-point pins of real equilibria of every topology must lie on the flux surface of their radial boundary.",
         note="Trusted: Coq kernel; TopoLib.bout_up/ordered = hand-written reading of BOUT++'s manual (the spec); ast translator (validated); circular/TORPEX topologies "
              "covered by the grid-file oracle only (no table theorem); shared x-edge coincidence is C04's tolerance statement.",
         technique="Coq proof (case analysis + lia over all size vectors) on a translated model + translation validation + grid-file oracle",
@@ -64,7 +64,7 @@ CLAIMED = {
              "branches; erf branches under brentq's post-condition), prescribed end gradients with vanishing second derivative (Coquelicot), strict monotonicity of the "
              "cubic branches inside the code's own guard including its 1e-8 slack for both orderings, sign of the spacing in the erf branches, nesting under doubling of n, "
              "coincidence with the linear function at the switch. Translation validated against the real function; the same properties, segment sharing, limits and dx "
-             "are checked on the implementation for every topology (incl. a perturbed connected double null) and on corpus grids. Continuity in the parameters is swept: geometric sweeps of the end-gradient ratio 0.3..6 (step 0.4 %) through every switch between closed forms, second differences of all faces below 2e-3 of the psi range (observed 2e-5).",
+             "are checked on the implementation for every topology (incl. a perturbed connected double null) and on corpus grids. Continuity in the parameters is swept: geometric sweeps of the end-gradient ratio 0.3..6 (step 0.4 %) through every switch between closed forms, second differences of all faces below 2e-3 of the psi range (observed 2e-5). On real equilibria at 32 times the radial resolution the one-sided gradients of the spacing function agree across every separatrix (incl. both sides of the inter-separatrix segment).",
         note="Trusted: Coq kernel + Reals/Coquelicot axioms; erf contract (erf 0 = 0, odd, derivative) and brentq post-condition as Section hypotheses; translator; the sici "
              "(two-gradient decreasing) branch is oracle-only; trig-branch monotonicity proved only in the interior of its guard; binary64 plateaus of erf for extreme ratios are "
              "refused loudly by make1dGrid and only counted.",
@@ -82,7 +82,7 @@ CLAIMED = {
              "a contour of the same length every point of which is within the tolerance; with the DEFAULT methods the only untested path is the raw "
              "'integrate' fallback (identified by theorem, monitored); skip_endpoints keeps exactly the two end points. The PrimFloat instance of the same "
              "model is run BIT FOR BIT against the real refinePointNewton / refinePoint / getRefined on polynomial flux functions (converging, touching "
-             "= 6-16 iterations around the limit, diverging, early-exit cases; scripted integrate / line outcomes).",
+             "= 6-16 iterations around the limit, diverging, early-exit cases; scripted integrate / line outcomes). A member with different inboard / outboard SOL limits (udn_solin) is part of the residual oracle.",
         note="Trusted: Coq kernel (+ Reals axioms for the real-number instance of the refinement theorems); hand models + fingerprints + bit-exact correspondence; "
              "solve_ivp ('integrate') and brentq ('line') are parameters of the model: contracts monitored on real grids (psi residual of every point), not proved; "
              "convergence of the iteration is not claimed; corpus = analytic Gaussian families + circular (no TORPEX X-point case: needs sympy).",
@@ -138,7 +138,7 @@ CLAIMED = {
              "image inside the private region (uses how the source binds leg_psi: hand model of Python closure binding); the extrapolated profile is continuous at psi1D[-1] and continues "
              "its gradient.  Oracles: real TokamakEquilibrium objects of 6-8 analytic families x both signs of psi x option variants (extrapolate_profiles, reverse_current, reverse_Bt, "
              "psi_divide_twopi, all together): psi, fpol, pressure, every region's pressure closure across all separatrices, psi_axis, psi_bdry, Bt_axis; every point of every corpus grid "
-             "(incl. option, extrapolation, dct and regridded members) against an independently rebuilt interpolant; sign of Bpxy vs Bp.dy at every cell.",
+             "(incl. option, extrapolation, dct and regridded members) against an independently rebuilt interpolant; sign of Bpxy vs Bp.dy at every cell. Profiles are also handed over listed from the edge to the axis.",
         note="Trusted: Coq kernel + Reals axioms; FITPACK interpolants (rebuilt independently from the inputs by the oracle); translator translate/geom1.py; the hand model of closure "
              "binding.  The accuracy of the O-/X-point positions is C19's matter: scalars are compared within the bound implied by xpoint_refine_atol.",
         technique="Coq proof on translated formulas + hand model of closure binding + independent-interpolant oracle on real equilibria and grids", design="6/C03"),
@@ -149,7 +149,7 @@ CLAIMED = {
              "exactly what a mesh built from scratch with the last settings shows.  Second theorem: for every history of PsiContour method calls (effect table regenerated from the class) "
              "the cached distance list / FineContour are never stale.  Correspondence: real non-orthogonal BoutMesh objects driven through histories (GUI flow, partial settings dicts, "
              "returning to earlier settings, geometry() twice, no calculateRZ, non-nonorthogonal keys mixed in; thorough: random histories incl. double null) and compared field by field "
-             "with cached fresh builds. The build-time skeleton is modelled as a function of the options: a regenerated flag states that getSfuncFixedSpacing grids the separatrix with the orthogonal spacing parameters in every non-orthogonal method (false on the pinned tree for 'poloidal_orthogonal_combined': finding F24, fixed); a history with that method is part of the oracle.",
+             "with cached fresh builds. The build-time skeleton is modelled as a function of the options: a regenerated flag states that getSfuncFixedSpacing grids the separatrix with the orthogonal spacing parameters in every non-orthogonal method (false on the pinned tree for 'poloidal_orthogonal_combined': finding F24, fixed); a history with that method is part of the oracle. A history with a call that is refused part-way followed by a return to the earlier settings is part of the oracle.",
         note="Trusted: Coq kernel (no axioms); the numerical kernels (OptionsFactory.create, regrid+refine, derive) are Section variables whose functional dependence is the contract "
              "monitored by the fresh-build comparison at 5e-7 m; translate/regrid.py.",
         technique="Coq proof by induction over operation histories on a hand model selected by regenerated source facts + history correspondence with fresh builds", design="6/C15"),
@@ -160,7 +160,7 @@ CLAIMED = {
              "under Bt reversal (parity lemma per component); the sign decision is invariant under reflection with y reversed; the connection tables of upper single / double null are the "
              "reflected tables of the lower ones, the connected double null is self-mirror (vm_compute on the generated finite tables); single-null branch-cut integers reflect.  Oracles on "
              "pairs of complete grids: mirror pairs region by region (R, -Z, bpsign, 30 field magnitudes at 1e-8 m / 2e-6), reversal pairs (every output field up to the expected sign), "
-             "options vs directly transformed inputs (identical). Reflection exchanges the two ends of every region: the four blending-range expressions of combineSfuncs (REGENERATED) are proved symmetric under lower <-> upper with *_inner inside and *_outer outside the separatrix, and the metamorphic range-parameter oracle of C10 runs here on lsn and usn.",
+             "options vs directly transformed inputs (identical). Reflection exchanges the two ends of every region: the four blending-range expressions of combineSfuncs (REGENERATED) are proved symmetric under lower <-> upper with *_inner inside and *_outer outside the separatrix, and the metamorphic range-parameter oracle of C10 runs here on lsn and usn. A non-orthogonal single-null mirror pair and an up-down symmetric steep-wall non-orthogonal double null compared with itself exercise the two near-identical wall-point blocks against each other.",
         note="Trusted: Coq kernel + Reals axioms; translators; that contour following is deterministic in its inputs is what the pair comparison monitors.  The radial grid line through "
              "an X-point is compared at 5e-4 m (each region starts slightly off the X-point and the join takes the upper region's values: documented in fillRZ).",
         technique="Coq proofs on translated formulas and generated finite tables + pairwise grid oracle", design="6/C16"),
@@ -185,7 +185,7 @@ CLAIMED = {
              "sorted by (psi - psi_axis)^2; makeRegions keeps exactly the X-points below psinorm_sol and inside the wall in order; 1 -> single null, 2 -> double null, else refused.  "
              "Correspondence: a Python twin of the candidate search evaluating the translated Newton step feeds the candidate lists to the model (vm_compute); result = find_critical's.  Oracle: "
              "random sums of Gaussians (tilted, sub-grid positions, 4 resolutions, both signs) against an independent multi-start Newton on the analytic function; TokamakEquilibrium objects "
-             "with psinorm_sol either side of the secondary X-point and a wall that excludes an X-point. Cases include hills displaced diagonally (saddles tilted 45 degrees and asymmetric: psi_RR and psi_ZZ of the same sign, only the mixed derivative decides); findLegs is run on straight-line separatrices in a wall with an inclined side (closed-form strike points, legs swept to one side whose order at the wall is the reverse of their order at the X-point): 'inner' is the leg with the smaller strike-point radius.",
+             "with psinorm_sol either side of the secondary X-point and a wall that excludes an X-point. Cases include hills displaced diagonally (saddles tilted 45 degrees and asymmetric: psi_RR and psi_ZZ of the same sign, only the mixed derivative decides); findLegs is run on straight-line separatrices in a wall with an inclined side (closed-form strike points, legs swept to one side whose order at the wall is the reverse of their order at the X-point): 'inner' is the leg with the smaller strike-point radius. Analytic sheared double nulls (both X-points at the same major radius, sub-grid positions: duplicate candidates with another point in between) check 'exactly once'; the duplicate-removal loop is fingerprinted.",
         note="Trusted: Coq kernel (+ Reals axioms for the first two theorems); FITPACK evaluators; translator.  Completeness of the candidate search (grid minima of Bp^2 + Newton "
              "convergence) is observed on the sampled functions, not proved; the monotonicity filter is modelled (keep_xpoint) and compared, its geometric meaning is not a theorem.",
         technique="Coq proofs on translated expressions and a computable hand model + vm_compute correspondence + independent-solver oracle", design="6/C19"),
@@ -195,7 +195,7 @@ CLAIMED = {
              "with a witness (finding F5).  Observed on the real code (not provable in a model: floating-point determinism of SciPy / netCDF / process scheduling): the real constructor on "
              "caller-owned arrays (arrays, wall list, three constructions); command-line round trips geqdsk -> hypnotoad-geqdsk (twice, two processes) -> hypnotoad-recreate-inputs -> "
              "hypnotoad-geqdsk for option sets incl. sign options, defaults that are expressions, an explicit None: every numeric variable bit-identical, embedded geqdsk byte-exact, embedded "
-             "YAML safe_load-able and complete against the three option factories, only grid_id / versions / file name differ; one interpreter building X, Y, Z, X. The round trip is also started from the Python API (options dict in memory with an explicit None) and regenerated through the command line; the one-interpreter history is W, X, Y, Z, X, W with W leaving spacing lengths to defaults that are expressions (non-orthogonal), comparing arrays AND evaluated option sets.",
+             "YAML safe_load-able and complete against the three option factories, only grid_id / versions / file name differ; one interpreter building X, Y, Z, X. The round trip is also started from the Python API (options dict in memory with an explicit None) and regenerated through the command line; the one-interpreter history is W, X, Y, Z, X, W with W leaving spacing lengths to defaults that are expressions (non-orthogonal), comparing arrays AND evaluated option sets. The caller's settings dictionaries (equilibrium and mesh) and a float pressure array with extrapolate_profiles are part of the side-effect oracle.",
         note="level proof for the side-effect / history part only; determinism and the provenance round trip are correspondence-style observations on the real entry points.  Trusted: Coq "
              "kernel + Reals axioms, translate/options.py, the hand model of numpy's in-place semantics.",
         technique="Coq proof on regenerated option pre-processing + end-to-end round trips through the real command-line entry points", design="6/C14", partial=True),
@@ -206,7 +206,7 @@ CLAIMED = {
              "reported crossing, which (C20 soundness) lies on the chord and on a wall edge, so the fraction is in [0,1] and the two ends' fractions add to 1.  Correspondence: the model "
              "evaluated by vm_compute on the walls and cells of real grids and of stub regions (700+ cells).  Oracles: every cell of every corpus grid against an independent ray-casting "
              "evaluation; the real calcPenaltyMask / wall normalisation on stub regions with spiky, U-shaped (lines from the reference point cross the wall twice) and off-axis walls in both "
-             "orientations; target points on the wall and on their flux surface, cell centres inside / guard cells outside (non-orthogonal), the wall written to the file. A non-orthogonal member with a steeply inclined floor and a fine target spacing (contours must be extended to reach the wall, C11 only) is part of the target-on-wall oracle.",
+             "orientations; target points on the wall and on their flux surface, cell centres inside / guard cells outside (non-orthogonal), the wall written to the file. A non-orthogonal member with a steeply inclined floor and a fine target spacing (contours must be extended to reach the wall, C11 only) is part of the target-on-wall oracle. The index bookkeeping of PsiContour (insert / temporaryExtend / reverse with Python's negative indices) is modelled (Model_Contour.v): for EVERY history of inserts inside the list and guard-cell extensions startInd and endInd keep designating the same points (the wall point stays the target), reverse exchanges them, a negative endInd survives extensions; the model is run against the real class on random histories.",
         note="Trusted: Coq kernel (no axioms); the even-odd parity test is taken as the definition of inside (Jordan curve theorem not proved) under the contract that the reference point is "
              "inside the wall; target points are compared at a tolerance second order in the FineContour spacing (2.6e-6 m at Nfine = 100).",
         technique="Coq proofs on a computable exact-rational hand model + vm_compute correspondence + independent ray-casting oracle on grids and stub regions", design="6/C11"),
